@@ -892,6 +892,15 @@ func copyFacts(f factMap) factMap {
 
 // constOf returns the constant v is known to equal (bool, string or int), or nil.
 func (f factMap) constOf(v ssa.Value) constant.Value {
+	// nil-ness domain for interfaces and pointers: true = "is nil", false = "is not nil"
+	switch x := v.(type) {
+	case *ssa.Const:
+		if x.Value == nil && nilnessType(x.Type()) {
+			return constant.MakeBool(true)
+		}
+	case *ssa.MakeInterface, *ssa.Alloc:
+		return constant.MakeBool(false)
+	}
 	if c, ok := v.(*ssa.Const); ok {
 		if c.Value != nil {
 			switch c.Value.Kind() {
@@ -913,6 +922,19 @@ func (f factMap) evalBool(cond ssa.Value) (bool, bool) {
 		return constant.BoolVal(k), true
 	}
 	if b, ok := cond.(*ssa.BinOp); ok {
+		if x, emptyWhenTrue, ok := emptinessTest(b); ok {
+			if k, has := f[x]; has && k.Kind() == constant.Bool {
+				return constant.BoolVal(k) == emptyWhenTrue, true
+			}
+		}
+		if nilnessType(b.X.Type()) {
+			// comparisons of interfaces / pointers are decided only against the nil constant
+			_, cx := b.X.(*ssa.Const)
+			_, cy := b.Y.(*ssa.Const)
+			if !cx && !cy {
+				return false, false
+			}
+		}
 		x, y := f.constOf(b.X), f.constOf(b.Y)
 		if x != nil && y != nil && x.Kind() == y.Kind() {
 			switch b.Op {
@@ -936,6 +958,27 @@ func (f factMap) learn(cond ssa.Value, val bool) factMap {
 		n[cond] = constant.MakeBool(val)
 	}
 	if b, ok := cond.(*ssa.BinOp); ok {
+		if x, emptyWhenTrue, ok := emptinessTest(b); ok {
+			if n == nil {
+				n = copyFacts(f)
+			}
+			n[x] = constant.MakeBool(emptyWhenTrue == val)
+		}
+		if nilnessType(b.X.Type()) && ((b.Op == token.EQL && !val) || (b.Op == token.NEQ && val)) {
+			// x != nil holds
+			var x ssa.Value
+			if c, ok := b.Y.(*ssa.Const); ok && c.Value == nil {
+				x = b.X
+			} else if c, ok := b.X.(*ssa.Const); ok && c.Value == nil {
+				x = b.Y
+			}
+			if x != nil && isFlagLike(x) {
+				if n == nil {
+					n = copyFacts(f)
+				}
+				n[x] = constant.MakeBool(false)
+			}
+		}
 		if (b.Op == token.EQL && val) || (b.Op == token.NEQ && !val) {
 			var x ssa.Value
 			var k constant.Value
@@ -956,6 +999,49 @@ func (f factMap) learn(cond ssa.Value, val bool) factMap {
 		return f
 	}
 	return n
+}
+
+// emptinessTest recognises `len(x) == 0`, `len(x) != 0`, `len(x) > 0`,
+// `len(x) < 1`, `len(x) >= 1`, `len(x) <= 0` on a slice/map/string x and
+// reports whether the test being TRUE means x is empty. The fact "x is empty"
+// is stored in the fact map under x itself (as a bool), so it flows through
+// phis like any other constant and is dropped when x's block is re-entered.
+func emptinessTest(b *ssa.BinOp) (x ssa.Value, emptyWhenTrue bool, ok bool) {
+	call, isCall := b.X.(*ssa.Call)
+	if !isCall {
+		return nil, false, false
+	}
+	bi, isB := call.Call.Value.(*ssa.Builtin)
+	if !isB || bi.Name() != "len" || len(call.Call.Args) != 1 {
+		return nil, false, false
+	}
+	k, isC := b.Y.(*ssa.Const)
+	if !isC || k.Value == nil || k.Value.Kind() != constant.Int {
+		return nil, false, false
+	}
+	n, exact := constant.Int64Val(k.Value)
+	if !exact {
+		return nil, false, false
+	}
+	x = call.Call.Args[0]
+	if _, isBool := x.Type().Underlying().(*types.Basic); isBool && x.Type().Underlying().(*types.Basic).Kind() == types.Bool {
+		return nil, false, false
+	}
+	switch {
+	case n == 0 && b.Op == token.EQL, n == 0 && b.Op == token.LEQ, n == 1 && b.Op == token.LSS:
+		return x, true, true
+	case n == 0 && b.Op == token.NEQ, n == 0 && b.Op == token.GTR, n == 1 && b.Op == token.GEQ:
+		return x, false, true
+	}
+	return nil, false, false
+}
+
+func nilnessType(t types.Type) bool {
+	switch t.Underlying().(type) {
+	case *types.Interface, *types.Pointer:
+		return true
+	}
+	return false
 }
 
 // isFlagLike: phis and parameters are the values whose constant-ness is worth
